@@ -6,7 +6,7 @@ export GOFLAGS=-mod=mod GOPROXY=off GOSUMDB=off GOTOOLCHAIN=local
 rc=0
 while read prop scen stem; do
   rm -f replays/$stem-*.json
-  ./check $prop --tier quick --scenario $scen --runs 3 --no-evidence > /tmp/refresh-known.log 2>&1
+  ./check $prop --tier quick --scenario $scen --runs 24 --no-evidence > /tmp/refresh-known.log 2>&1
   f=$(ls replays/$stem-*.json 2>/dev/null | head -1)
   if [ -z "$f" ]; then echo "NO REPLAY for $prop/$scen"; rc=1; continue; fi
   if ./check $prop --replay "$f" 2>&1 | grep -q "^REPRODUCED"; then
